@@ -8,6 +8,8 @@ package tmp2ptest
 
 import (
 	"context"
+	"sync"
+	"time"
 
 	"github.com/gordian-engine/gordian/gexchange"
 	"github.com/gordian-engine/gordian/internal/verifrt"
@@ -20,8 +22,12 @@ type vhDCHandler struct {
 	calls   *[]string
 }
 
+var vhDCMu sync.Mutex
+
 func (h vhDCHandler) note(kind string) gexchange.Feedback {
+	vhDCMu.Lock()
 	*h.calls = append(*h.calls, h.name+":"+kind)
+	vhDCMu.Unlock()
 	return h.verdict
 }
 func (h vhDCHandler) HandleProposedHeader(context.Context, tmconsensus.ProposedHeader) gexchange.Feedback {
@@ -81,7 +87,7 @@ func VH_C20_DaisyChain() {
 		}
 	}
 
-	mode := verifrt.Choose("b-handler", 5)
+	mode := verifrt.Choose("b-handler", 7)
 	switch mode {
 	case 0: // never installed
 		verifrt.Reach("daisy:no-handler")
@@ -116,6 +122,16 @@ func VH_C20_DaisyChain() {
 		<-done
 		verifrt.SchedNondet(false, 0)
 		verifrt.Reach("daisy:handler-cleared-concurrently")
+	case 5: // installed, then cleared; the message comes afterwards
+		b.SetConsensusHandler(ctx, h1)
+		b.SetConsensusHandler(ctx, nil)
+		verifrt.Reach("daisy:handler-cleared-before")
+		send()
+	case 6: // installed, then replaced; the message comes afterwards
+		b.SetConsensusHandler(ctx, h1)
+		b.SetConsensusHandler(ctx, h2)
+		verifrt.Reach("daisy:handler-replaced-before")
+		send()
 	}
 
 	// let the chain settle: a request/response with every connection's goroutine in turn makes
@@ -133,15 +149,30 @@ func VH_C20_DaisyChain() {
 		}
 	}
 
+	if !verifrt.Symbolic() {
+		// natively the connection goroutines run on their own: give the message time to travel
+		time.Sleep(150 * time.Millisecond)
+	}
+	vhDCMu.Lock()
+	defer vhDCMu.Unlock()
 	seenFar := vhDCCount(calls, "far:")
 	n1, n2 := vhDCCount(calls, "b1:"), vhDCCount(calls, "b2:")
 	verifrt.Observe("daisy", uint64(mode), uint64(seenFar), uint64(n1), uint64(n2), uint64(v1), uint64(v2))
 	accepted := (n1 >= 1 && v1 == gexchange.FeedbackAccepted) || (n2 >= 1 && v2 == gexchange.FeedbackAccepted)
 	verifrt.Assert(verifrt.Implies(seenFar > 0, accepted), "D:relayed-only-if-the-middle-handler-accepted-it")
+	// a handler that was cleared or replaced before the message came is out of the game
+	if mode == 5 {
+		verifrt.Assert(n1 == 0 && seenFar == 0, "D:cleared-handler-is-not-consulted-and-nothing-is-relayed")
+	}
+	if mode == 6 {
+		verifrt.Assert(n1 == 0 && verifrt.Implies(seenFar > 0, n2 >= 1 && v2 == gexchange.FeedbackAccepted), "D:replaced-handler-is-not-consulted")
+	}
 	if seenFar > 0 {
 		verifrt.Reach("daisy:relayed")
 	}
+	vhDCMu.Unlock()
 	cancel()
 	n.Wait()
+	vhDCMu.Lock()
 	verifrt.Reach("daisy:network-stopped")
 }
